@@ -27,10 +27,12 @@
 (***************************************************************************)
 EXTENDS Integers, Sequences, FiniteSets, TLC
 
-CONSTANTS InitFiles,   \* set of initial values of `files`: sequences (files) of sequences of definitions
+CONSTANTS InitCase(_, _), \* InitCase(l, f): l is the name and f the value of an initial `files` (a sequence of files,
+                          \* each the sequence of definitions its text parses to)
           BaseNames    \* every name a base unit of the universe can have (dimension vectors are total over it)
 
-VARIABLES files,      \* the parsed definition lists, one per file, not yet concatenated
+VARIABLES label,      \* ghost: name of the initial state (which order, which split), forgotten by Concat
+          files,      \* the parsed definition lists, one per file, not yet concatenated
           todo,       \* the concatenated list still to be inserted (load.rs: defs.defs.into_iter())
           defset,     \* ghost: the set of definitions given (for OrderIndependent)
           input,      \* Resolver.input : Id -> definition
@@ -46,14 +48,14 @@ VARIABLES files,      \* the parsed definition lists, one per file, not yet conc
           db,         \* the registry being built (plus Context.temporaries)
           phase
 
-vars == <<files, todo, defset, input, unmarked, temp, sorted, stack, errors, rdocs, rcats, cut, evalq, db, phase>>
+vars == <<label, files, todo, defset, input, unmarked, temp, sorted, stack, errors, rdocs, rcats, cut, evalq, db, phase>>
 
-S == [files |-> files, todo |-> todo, defset |-> defset, input |-> input, unmarked |-> unmarked, temp |-> temp,
+S == [label |-> label, files |-> files, todo |-> todo, defset |-> defset, input |-> input, unmarked |-> unmarked, temp |-> temp,
       sorted |-> sorted, stack |-> stack, errors |-> errors, rdocs |-> rdocs, rcats |-> rcats, cut |-> cut,
       evalq |-> evalq, db |-> db, phase |-> phase]
 
 Assign(r) ==
-  /\ files' = r.files /\ todo' = r.todo /\ defset' = r.defset /\ input' = r.input /\ unmarked' = r.unmarked
+  /\ label' = r.label /\ files' = r.files /\ todo' = r.todo /\ defset' = r.defset /\ input' = r.input /\ unmarked' = r.unmarked
   /\ temp' = r.temp /\ sorted' = r.sorted /\ stack' = r.stack /\ errors' = r.errors /\ rdocs' = r.rdocs
   /\ rcats' = r.rcats /\ cut' = r.cut /\ evalq' = r.evalq /\ db' = r.db /\ phase' = r.phase
 
@@ -308,13 +310,13 @@ Top(s) == s.stack[Len(s.stack)]
 Pop(st) == SubSeq(st, 1, Len(st) - 1)
 Frame(id, pc, deps) == [id |-> id, pc |-> pc, deps |-> deps]
 
-InitF(fs) == [files |-> fs, todo |-> <<>>, defset |-> {}, input |-> EmptyMap, unmarked |-> {}, temp |-> {},
+InitF(fs) == [label |-> <<>>, files |-> fs, todo |-> <<>>, defset |-> {}, input |-> EmptyMap, unmarked |-> {}, temp |-> {},
               sorted |-> <<>>, stack |-> <<>>, errors |-> <<>>, rdocs |-> EmptyMap, rcats |-> EmptyMap,
               cut |-> {}, evalq |-> <<>>, db |-> EmptyDb, phase |-> "files"]
 
 \* cli/src/config.rs:329-333: every file parsed on its own, the lists concatenated
 EnConcat(s) == s.phase = "files"
-DoConcat(s) == [s EXCEPT !.todo = Flatten(s.files), !.defset = Range(Flatten(s.files)), !.files = <<>>,
+DoConcat(s) == [s EXCEPT !.label = <<>>, !.todo = Flatten(s.files), !.defset = Range(Flatten(s.files)), !.files = <<>>,
                          !.phase = "insert"]
 
 \* load.rs:292-356, one list entry
@@ -402,7 +404,7 @@ RunF(s) == IF s.phase = "done" THEN s ELSE RunF(StepF(s))
 (* the state machine *)
 
 Init ==
-  /\ files \in InitFiles
+  /\ InitCase(label, files)
   /\ todo = <<>> /\ defset = {} /\ input = EmptyMap /\ unmarked = {} /\ temp = {} /\ sorted = <<>>
   /\ stack = <<>> /\ errors = <<>> /\ rdocs = EmptyMap /\ rcats = EmptyMap /\ cut = {} /\ evalq = <<>>
   /\ db = EmptyDb /\ phase = "files"
@@ -476,24 +478,19 @@ CycleReported ==
     /\ \A a \in AllIds : CycleErr(a) => OnCycle(a)
     /\ \A e \in cut : CycleErr(e[2]) /\ Edge(e[1], e[2])
 
-\* the measure that decreases with every step of the sort phase (termination without fairness assumptions
-\* about the environment: the loader is a sequential program)
+\* Termination of a sequential program: a measure that decreases lexicographically with every step.
+\* (phase, list entries left, definitions not yet entered, definitions not yet emitted, stack empty, pending calls)
 RECURSIVE StackWork(_)
-StackWork(st) == IF st = <<>> THEN 0 ELSE 1 + Len(Head(st).deps) + StackWork(Tail(st))
-Work ==
-  CASE phase = "files" -> 5
-    [] phase = "insert" -> 4
-    [] phase = "sort" -> 3
-    [] phase = "eval" -> 2
-    [] phase = "post" -> 1
-    [] OTHER -> 0
-Minor == Len(todo) + Len(evalq) + StackWork(stack)
-\* lexicographic: (phase, definitions not yet emitted, pending work)
-Progress == [][ \/ Work' < Work
-               \/ (Work' = Work /\ Cardinality(unmarked') < Cardinality(unmarked))
-               \/ (Work' = Work /\ unmarked' = unmarked /\ phase = "sort" /\ stack = <<>> /\ stack' # <<>>)
-               \/ (Work' = Work /\ unmarked' = unmarked /\ Top(S).pc = "enter" /\ temp' # temp)
-               \/ (Work' = Work /\ unmarked' = unmarked /\ Minor' < Minor) ]_vars
+StackWork(st) == IF st = <<>> THEN 0 ELSE 1 + 2 * Len(Head(st).deps) + StackWork(Tail(st))
+PhaseRank ==
+  CASE phase = "files" -> 5 [] phase = "insert" -> 4 [] phase = "sort" -> 3 [] phase = "eval" -> 2
+    [] phase = "post" -> 1 [] OTHER -> 0
+Measure == <<PhaseRank, Len(todo) + Len(evalq), Cardinality(unmarked \ temp), Cardinality(unmarked),
+             IF phase = "sort" /\ stack = <<>> THEN 1 ELSE 0, StackWork(stack)>>
+RECURSIVE LexLess(_, _)
+LexLess(a, b) == a # <<>> /\ (a[1] < b[1] \/ (a[1] = b[1] /\ LexLess(Tail(a), Tail(b))))
+MeasureNat == \A i \in DOMAIN Measure : Measure[i] >= 0
+Progress == [][LexLess(Measure', Measure)]_vars
 
 Termination == <>Done
 
